@@ -160,7 +160,7 @@ def judgeWD (d : DictRt) (R : Nat) (behTok : String) (impl : List String) : Judg
         match st.pc with
         | .writing _ =>
           let w := stepAll st [.writeOk]
-          if b = "A" ∨ b = "E" ∨ b = "L" then stepAll w [.dwaOk, .ack]
+          if b = "A" ∨ b = "E" ∨ b = "L" ∨ b = "V" then stepAll w [.dwaOk, .ack]
           else if b = "T" then stepAll w [.dwaOk, .dwaOk, .dwaOk, .ack]
           else if b = "F" then stepAll w [.dwaFail, .rtTimer]
           else stepAll w [.rtTimer]
@@ -178,7 +178,7 @@ def judgeWD (d : DictRt) (R : Nat) (behTok : String) (impl : List String) : Judg
     if iCycles.any (· > R + 1) then fails := fails ++ ["C13:more-dwrs-than-budget-in-one-cycle"]
     if (kv impl "same").getD "1" ≠ "1" then fails := fails ++ ["C13:dwr-identity-differs"]
     -- a cycle whose script contains an answer must not end in a close
-    let anyAnswered := cycles.all (fun c => c.any (fun b => b = "A" ∨ b = "E" ∨ b = "L" ∨ b = "T"))
+    let anyAnswered := cycles.all (fun c => c.any (fun b => b = "A" ∨ b = "E" ∨ b = "L" ∨ b = "V" ∨ b = "T"))
     if anyAnswered ∧ iClosed = 1 then fails := fails ++ ["C13:responsive-peer-disconnected"]
     if ¬ anyAnswered ∧ sEnd.closedByWD ∧ iClosed = 0 then fails := fails ++ ["C13:silent-peer-not-disconnected"]
     if iCycles ≠ counts ∧ fails.isEmpty then fails := fails ++ ["C13:dwr-count-per-cycle-differs"]
